@@ -14,7 +14,7 @@ RULE = ("models over every propensity type (numeric and named parameters), order
         "non-trivial = >=2 propensity types and a delay or a rule; distinct by spec x export kind")
 ASSUMPTIONS = ["observational equivalence is asserted on the listed observables only", "ode rules are excluded (exported as SBML rate rules, which the property does not cover)"]
 RUN_OPTS = {"batch_size": 10, "timeout_per_case": 40.0}
-MINIMA = {"*": {"roundtrips": 150, "rate_comparisons": 5000, "delay_comparisons": 50, "rule_effect_comparisons": 300, "double_writes": 150}}
+MINIMA = {"*": {"roundtrips": 150, "rate_comparisons": 5000, "delay_comparisons": 50, "rule_effect_comparisons": 300, "double_writes": 150, "second_exports_after_value_change": 100}}
 
 
 def add_rules(rnd, sp, grid_time):
@@ -205,6 +205,51 @@ def run_case(case):
                         bad("rule-effect", "rules applied at t=%g step=%s to %s give %r -> %r" % (tt, step, st, da, db))
                         break
             M.set_params(q0)
+        # 7. a second export of the SAME model object after its values were changed in place (set_params / set_species):
+        #    the file must describe the model as it is now
+        import random as _random
+        rr = _random.Random(case["seed"] + 3)
+        newp = {k: float("%.4g" % (float(v) * rr.uniform(1.2, 2.5))) for k, v in sp["params"].items()
+                if k.startswith(("k_", "g_", "h_")) and rr.random() < 0.7}
+        news = {s_: float(rr.randint(0, 9)) + 1.0 for s_ in list(s0)[:3] if not any(s_ == t_[1]["equation"].split("=")[0].strip() for t_ in r0)}
+        if newp or news:
+            if rr.random() < 0.5 and newp:
+                for k, v in newp.items():
+                    M.set_parameter(k, v)
+            else:
+                M.set_params(newp)
+            M.set_species(news)
+            p3 = os.path.join(tmp, "c.xml")
+            try:
+                M.write_sbml_model(p3, stochastic_model=case["stochastic"])
+                R2 = Model(sbml_filename=p3) if case["route"] == "ctor" else import_sbml(p3)
+            except Exception as e:
+                bad("second-export-fails", "export / re-import after in-place value changes raised %r" % (e,))
+                R2 = None
+            if R2 is not None:
+                C["second_exports_after_value_change"] += 1
+                sa, sb = M.get_species_dictionary(), R2.get_species_dictionary()
+                for s_ in sa:
+                    if s_ not in sb or float(sa[s_]) != float(sb[s_]):
+                        bad("stale-export:initial-value", "after set_species(%r) and a second export, species %s reads back as %r (model has %r)" % (news, s_, sb.get(s_), sa[s_]))
+                        break
+                qa, qb = M.get_parameter_dictionary(), R2.get_parameter_dictionary()
+                for k, v in qa.items():
+                    if k not in qb or float(qb[k]) != float(v):
+                        bad("stale-export:parameter-value", "after changing %r in place and a second export, parameter %s reads back as %r (model has %r)" % (sorted(newp), k, qb.get(k), v))
+                        break
+                Pa, Pb = M.get_propensities(), R2.get_propensities()
+                va, vb = np.array(M.get_parameter_values(), dtype=float), np.array(R2.get_parameter_values(), dtype=float)
+                for st in case["states"][:2]:
+                    xa, xb = specmod.state_vec(M, st), specmod.state_vec(R2, st)
+                    for ri in range(min(len(Pa), len(Pb))):
+                        try:
+                            u, w = Pa[ri].py_get_propensity(xa.copy(), va.copy(), 0.0), Pb[ri].py_get_propensity(xb.copy(), vb.copy(), 0.0)
+                        except Exception:
+                            continue
+                        if not (u == w or (math.isfinite(u) and math.isfinite(w) and abs(u - w) <= 1e-12 * max(abs(u), abs(w))) or (math.isnan(u) and math.isnan(w))):
+                            bad("stale-export:rate-law", "second export: reaction %d rate at %s: %r -> %r" % (ri, st, u, w))
+                            break
         types = set(r["type"] for r in sp["reactions"])
         nontrivial = len(types) >= 2 and (any(r.get("delay") for r in sp["reactions"]) or bool(sp["rules"]))
         return {"viol": viol, "counters": dict(C), "nontrivial": nontrivial}
